@@ -26,7 +26,9 @@ impl Iterator for PyRange {
             return None;
         }
         let out = self.cur;
-        self.cur += self.step;
+        // Python's range has no further element once `cur + step` leaves i64: mark the range exhausted instead of
+        // overflowing (debug panic / release wrap-around that would keep yielding).
+        self.cur = self.cur.checked_add(self.step).unwrap_or(self.end);
         Some(out)
     }
 }
